@@ -21,7 +21,7 @@ class Stub:
 
     def __new__(cls, *a, **k):
         if isinstance(cls, Stub):  # NEWOBJ: cls.__new__(cls, *args) with a stub INSTANCE as cls
-            return cls._call(a, k)
+            return cls._call(a, k, new=True)
         return object.__new__(cls)
 
     def __init__(self, log, term):
@@ -31,9 +31,11 @@ class Stub:
         self._li = []       # appended / extended items (the object used as a list)
         self._di = []       # [key, value] pairs set by item assignment (the object used as a dict)
 
-    def _call(self, a, k):
+    def _call(self, a, k, new=False):
+        # nw: allocation through X.__new__(X, ...) (what NEWOBJ / NEWOBJ_EX do) as opposed to calling X(...): for a callee that
+        # is not a class the two are different things (f.__new__(f) does not call f)
         self._log.append({"e": "call", "f": canon(self), "a": [canon(x) for x in a],
-                          "kw": [[sname(n), canon(x)] for n, x in k.items()]})
+                          "kw": [[sname(n), canon(x)] for n, x in k.items()], "nw": bool(new)})
         return Stub(self._log, ("obj", self, a, k))
 
     def __call__(self, *a, **k):
